@@ -43,6 +43,7 @@ type FuncContract struct {
 	opts        map[string]string
 	asserts     []midAssert
 	implOf      *types.Signature // interface method signature (implementation units)
+	laws        []string         // table blocks: algebraic laws over the entries
 	implIface   types.Type
 }
 
@@ -150,6 +151,23 @@ func (cs *ContractSet) parseFile(pkgPath, filename string, lines []string, lineN
 			cs.funcs[pkgPath+"::"+m[1]+"@"+anchor] = cur
 			cs.order = append(cs.order, cur)
 			curLemma = nil
+		case "table", "entry":
+			// table <Name>            : every function literal registered inside top-level function <Name>
+			// entry <Table> <name>    : contract of one registered function literal, e.g. `entry New op:!=`
+			fields := strings.Fields(rest)
+			if (word == "table" && len(fields) != 1) || (word == "entry" && len(fields) != 2) {
+				cs.errors = append(cs.errors, where+": expected `table <Func>` or `entry <Func> <name>`")
+				cur = nil
+				continue
+			}
+			key := fields[0]
+			if word == "entry" {
+				key += "$" + fields[1]
+			}
+			cur = &FuncContract{pkg: pkgPath, key: key, kind: word, invs: map[int][]clause{}, pos: where, opts: map[string]string{}}
+			cs.funcs[pkgPath+"::"+word+":"+key] = cur
+			cs.order = append(cs.order, cur)
+			curLemma = nil
 		case "type-contract":
 			name := strings.TrimSpace(rest)
 			cur = &FuncContract{pkg: pkgPath, key: name, kind: "type", invs: map[int][]clause{}, pos: where, opts: map[string]string{}}
@@ -244,6 +262,12 @@ func (cs *ContractSet) parseFile(pkgPath, filename string, lines []string, lineN
 		case "trusted":
 			if cur != nil {
 				cur.trusted = true
+			}
+		case "law":
+			if cur != nil && cur.kind == "table" {
+				cur.laws = append(cur.laws, strings.TrimSpace(rest))
+			} else {
+				cs.errors = append(cs.errors, where+": `law` belongs to a table block")
 			}
 		case "panics":
 			if cur != nil && strings.TrimSpace(rest) == "never" {
